@@ -2826,12 +2826,15 @@ class Parameters:
         triggers = {p:self_[p]._autotrigger_value
                     for p in trigger_params if p in param_names}
 
+        # (looked up first: an unknown name must fail before the pending
+        # events are set aside)
+        param_values = self_.values()
+        params = {name: param_values[name] for name in param_names}
+
         events = self_._events
         watchers = self_._state_watchers
         self_._events  = []
         self_._state_watchers = []
-        param_values = self_.values()
-        params = {name: param_values[name] for name in param_names}
         # (the names being triggered: assignments made to other parameters by
         # the callbacks that run meanwhile are ordinary assignments)
         self_._TRIGGER = set(params) | set(triggers)
